@@ -28,6 +28,9 @@ def instances(tier):
         # a failing encoder leaves part of a record behind: the acknowledged records around it stay whole and in order
         I("pre_encfail", trig="pre", count=2, sizes=(1, 2), maxrec=4, encfail=1, restart=1, pre="PreNone"),
         I("post_encfail", trig="post", count=2, sizes=(1, 2), maxrec=3, encfail=1, crash=1, pre="PreNone"),
+        # archives found at first build, with gaps (an appender started over what an earlier life - or an admin - left)
+        I("size_prearch_w04", trig="size", count=4, limit=1, sizes=(1, 2), maxrec=3, prearch=True, pre="PreA"),
+        I("pre_prearch_w13_t", trig="pre", base=1, count=3, append=False, sizes=(1, 2), maxrec=3, prearch=True, restart=1, pre="PreNone"),
         # a user-defined roller that returns Ok and leaves the file where it is: the appender carries on in the same file
         I("size_noop", trig="size", roller="noop", count=0, limit=2, sizes=(1, 3), maxrec=4, restart=1),
         I("pre_noop_t", trig="pre", roller="noop", count=0, append=False, sizes=(1, 2), maxrec=3, restart=1, faults=1),
